@@ -71,8 +71,23 @@ def failing_programs(draw):
 
 
 @st.composite
+def refail_programs(draw):
+    """The same failing call reached again after its first failure was handled."""
+    ek = draw(st.sampled_from(P.ERRK))
+    boom = ["task", ["throw", ek, "again"], {}, {}]
+    first = ["catch", ["task", boom, {}, {}], ["Exception"], ["lit", ["int", -1]], {}]
+    late = draw(st.sampled_from(["dep", "seq"]))
+    second = ["task", ["list", [["var", "a"], boom]], {"a": first}, {}] if late == "dep" else ["seq", [first, ["task", boom, {}, {}]]]
+    if draw(st.booleans()):
+        second = ["catch", second, ["Exception"], ["lit", ["int", -2]], {}]
+    return ["list", [second]]
+
+
+@st.composite
 def cases(draw):
-    if draw(st.integers(0, 3)) == 0:
+    if draw(st.integers(0, 4)) == 0:
+        prog = draw(refail_programs())
+    elif draw(st.integers(0, 3)) == 0:
         prog = draw(P.programs(max_depth=3, modes=("node",), errors=True))
     else:
         prog = draw(failing_programs())
@@ -112,11 +127,36 @@ def audit_failed(case, r, backend) -> int:
                 raise Violation("failed-job-without-error-value", f"job {jid[:8]} has no ErrorValue call node", case)
             if row.end_time is None:
                 raise Violation("failed-job-without-end", f"failed job {jid[:8]} has no end time", case)
+    # every job the scheduler settled as FAILED (also one that received a failed twin's recorded
+    # error through CSE) is recorded as failed, with an end time and an error result
+    for sj in r.jobs:
+        if sj._status != "FAILED" or (sj.eval_options or {}).get("prov", True) is False:
+            continue
+        row = session.query(Job).filter(Job.id == sj.id).one_or_none()
+        if row is None:
+            raise Violation("failed-job-not-recorded", f"failed job {sj.task.fullname} {sj.id[:8]} has no Job row", case)
+        if row.end_time is None or row.status != "FAILED":
+            raise Violation("failed-job-not-closed", f"failed job {sj.task.fullname} {sj.id[:8]} is recorded with status "
+                            f"{row.status} (end_time {row.end_time}, cached {row.cached})", case)
     execs = session.query(Execution).all()
     for e in execs[-1:]:
         if e.status != "FAILED":
             raise Violation("execution-not-failed", f"execution status {e.status} after run raised {type(payload).__name__}", case)
     return depth
+
+
+def audit_failed_jobs_only(case, r, backend) -> None:
+    from redun.backends.db import Job
+
+    session = backend.session
+    session.expire_all()
+    for sj in r.jobs:
+        if sj._status != "FAILED" or (sj.eval_options or {}).get("prov", True) is False:
+            continue
+        row = session.query(Job).filter(Job.id == sj.id).one_or_none()
+        if row is None or row.end_time is None or row.status != "FAILED":
+            raise Violation("failed-job-not-closed", f"failed job {sj.task.fullname} {sj.id[:8]} (error handled upstream) is "
+                            f"recorded as {None if row is None else row.status} (end_time {None if row is None else row.end_time})", case)
 
 
 def oracle(ctx: Ctx, case):
@@ -134,6 +174,8 @@ def oracle(ctx: Ctx, case):
             raise Violation("submitted-after-failure", f"{r1.ctl.submitted_after_settle} jobs submitted after the workflow settled", case)
         if r1.kind == "err":
             info["depth"] = audit_failed(case, r1, backend)
+        else:
+            audit_failed_jobs_only(case, r1, backend)
         failed1 = {P.err_key(s.outcome[1]) for s in r1.ctl.submissions if s.outcome and s.outcome[0] == "error"}
         # second execution on the same backend
         r2 = schedrun.run_program(case["prog"], decisions=case["d2"], fine=case["fine"], backend=backend)
